@@ -5,7 +5,7 @@ from vlib.runner import Case
 
 PID = "C19"
 PROPS = ["Props/C19.v"]
-GEN = []
+GEN = ['LexConst.v']
 MODEL_IS_SPEC = False
 RULE = ("rejected strings: near-miss mutants of valid queries and token soup, re-rendered with LF / CR / CRLF / blanks inserted at positions where blank space is legal (and elsewhere), "
         "so that the error lands on any line; for each rejection: err.token.index must lie in [0, len(text)], and the 'line N, column M' printed by str(err) must equal the Coq "
